@@ -345,3 +345,116 @@ def triggerOf (P : Params) (x : PixIn) : String :=
       | c => c.name
 
 end Pandora.Refinement
+
+/-! ## The right-map approximation: `loop_approximate_refinement`
+
+  The right disparity map obtained by the diagonal search on the LEFT cost volume is refined on that volume: for the right
+  pixel `(row, col)` with (pixel) disparity `d`, the matched left column is `col + d` and the left disparity `-d`, so the cost
+  is `cv[row, col + d, (-d - d_min) * subpixel]`; its two neighbours ALONG THE DIAGONAL are
+  `cv[row, col + d - 1, dsp + subpixel]` (right disparity `d - 1`) and `cv[row, col + d + 1, dsp - subpixel]` (`d + 1`).
+  Same numba specifics as `refinePixel`.  (Public API of the refinement classes; the state machine does not call it today.) -/
+
+namespace Pandora.Refinement
+
+/-- numba's unchecked read on any list (as `pyGet`) -/
+def pyGetG {α : Type} (l : List α) (i : Int) : Option α :=
+  if 0 ≤ i then l[i.toNat]?
+  else if -i ≤ (l.length : Int) then l[l.length - (-i).toNat]?
+  else none
+
+/-- `cv[row, i, j]` on the row of cost rows -/
+def pyGet2 (m : List (List Val)) (i j : Int) : Option Val :=
+  match pyGetG m i with
+  | some l => pyGet l j
+  | none => none
+
+/-- one pixel of the right map as the loop sees it: `cv[row, :, :]` of the left cost volume, its column, disparity, flag word -/
+structure ApxIn where
+  rows : List (List Val)
+  col : Nat
+  d : Val
+  flag : Nat
+  deriving DecidableEq, Repr
+
+/-- body of the two `prange` loops of `loop_approximate_refinement` -/
+def approxPixel (P : Params) (x : ApxIn) : Res PixOut :=
+  if Flags.isInvalid x.flag then .ok ⟨.nan, x.d, x.flag⟩
+  else
+    match x.d with
+    | .nan => .err .nanDisparity
+    | .num dv =>
+      let dsp := pyInt ((-dv - P.dmin) * (P.subpix : Rat))
+      let diag := pyInt ((x.col : Rat) + dv)
+      match pyGet2 x.rows diag dsp with
+      | none => .err .outOfBounds
+      | some .nan => .ok ⟨.nan, x.d, x.flag⟩
+      | some (.num c1) =>
+        if dv != -P.dmin && dv != -P.dmax && diag != 0 && diag != (x.rows.length : Int) - 1 then
+          match pyGet2 x.rows (diag - 1) (dsp + (P.subpix : Int)), pyGet2 x.rows (diag + 1) (dsp - (P.subpix : Int)) with
+          | some c0, some c2 =>
+            match runMethod P.variant.fixFlat P.method P.isMax c0 c1 c2 with
+            | .ok r => .ok ⟨.num r.cost, .num (dv + r.shift / (P.subpix : Rat)), addFlag P.variant.fixOr x.flag r.flag⟩
+            | .err e => .err e
+          | _, _ => .err .outOfBounds
+        else .ok ⟨.num c1, x.d, addFlag P.variant.fixOr x.flag stoppedBit⟩
+
+/-- `loop_approximate_refinement` over one row of the map (all its pixels share `cv[row, :, :]`) -/
+def loopApproxRow (P : Params) (rows : List (List Val)) (px : List (Val × Nat)) : Res (List PixOut) :=
+  mapRes (fun (p : Nat × (Val × Nat)) => approxPixel P ⟨rows, p.1, p.2.1, p.2.2⟩) ((List.range px.length).zip px)
+
+/-! ### Specification of the approximation (from C06's statement, where it applies to the approximated right map)
+
+  A previously valid right pixel with an integer disparity `d` of `[-dmax, -dmin]` whose matched left column `col + d` is in
+  the image.  `centre` is the cost of that match.  The pixel is refined only when `d` is strictly inside the interval and the
+  matched column strictly inside the image, the two diagonal neighbours are numbers and the centre is an extremum among them. -/
+
+/-- plain read of the row of cost rows; anything outside is NaN -/
+def costAt2 (m : List (List Val)) (i j : Int) : Val :=
+  if 0 ≤ i then costAt (m.getD i.toNat []) j else .nan
+
+inductive ApxClass where
+  | invalid | illFormed | centreNan | stopped (c1 : Rat) | refine (d c0 c1 c2 : Rat)
+  deriving DecidableEq, Repr
+
+def apxClassify (P : Params) (x : ApxIn) : ApxClass :=
+  if Flags.isInvalid x.flag then .invalid
+  else
+    match x.d with
+    | .nan => .illFormed
+    | .num dv =>
+      let diag : Int := (x.col : Int) + dv.floor
+      if dv.floor ≠ dv ∨ dv < -P.dmax ∨ -P.dmin < dv ∨ diag < 0 ∨ (x.rows.length : Int) ≤ diag then .illFormed
+      else
+        let j : Int := ((-dv - P.dmin) * (P.subpix : Rat)).floor
+        match costAt2 x.rows diag j with
+        | .nan => .centreNan
+        | .num c1 =>
+          if dv = -P.dmin ∨ dv = -P.dmax ∨ diag = 0 ∨ diag = (x.rows.length : Int) - 1 then .stopped c1
+          else
+            match costAt2 x.rows (diag - 1) (j + (P.subpix : Int)), costAt2 x.rows (diag + 1) (j - (P.subpix : Int)) with
+            | .num c0, .num c2 => if isExtremum P.isMax c0 c1 c2 then .refine dv c0 c1 c2 else .stopped c1
+            | _, _ => .stopped c1
+
+/-- the clauses for one right pixel and what the step left for it -/
+def apxClauses (P : Params) (x : ApxIn) (o : PixOut) (tol : Rat) : List (String × Bool) :=
+  match apxClassify P x with
+  | .invalid => [("invalid_untouched", o.d == x.d && o.flag == x.flag)]
+  | .illFormed => []
+  | .centreNan => [("centre_nan_untouched", o.d == x.d && o.flag == x.flag)]
+  | .stopped c1 =>
+    [("stopped_iff", o.d == x.d && o.flag / 8 % 2 == 1),
+     ("only_bit3", o.flag % 8 == x.flag % 8 && o.flag / 16 == x.flag / 16),
+     ("coeff_is_matched_cost", match o.coeff with | .num y => close y c1 tol | .nan => false)]
+  | .refine d _ c1 _ =>
+    [("stopped_iff", o.flag == x.flag),
+     ("shift_le_half", match o.d with
+        | .num d' => decide (ratAbs (d' - d) ≤ 1 / (2 * (P.subpix : Rat)) + tol) | .nan => false),
+     ("inside_interval", match o.d with
+        | .num d' => decide (-P.dmax - tol ≤ d') && decide (d' ≤ -P.dmin + tol) | .nan => false),
+     ("coeff_not_worse", match o.coeff with
+        | .num y => if P.isMax then decide (c1 - tol ≤ y) else decide (y ≤ c1 + tol) | .nan => false)]
+
+def apxFailing (P : Params) (x : ApxIn) (o : PixOut) (tol : Rat) : List String :=
+  ((apxClauses P x o tol).filter (fun c => !c.2)).map (·.1)
+
+end Pandora.Refinement
